@@ -152,6 +152,15 @@ def malformed_prelude(fns, groups, code):
                 f(bad)
             except Exception:
                 pass
+            # hands that are not hands but that the evaluators may well accept: the same ranks with one card held twice,
+            # the same ranks all in one suit (duplicates and all), the hand with a card repeated in another position
+            su = g[(code + k) % len(g)][1] if isinstance(g[0], str) and len(g[0]) == 2 else "s"
+            for dup in (g[:j] + [g[(j + 1) % len(g)]] + g[j + 1:], [c[0] + su for c in g if isinstance(c, str) and len(c) == 2]):
+                if (code >> ((k + 5) % 16)) & 1:
+                    try:
+                        f(list(dup))
+                    except Exception:
+                        pass
 
 
 def helper_prelude(cards, code):
